@@ -777,6 +777,66 @@ def fold_returns(ctx):
     ctx.floor('return statements of fold() methods', n, 3)
 
 
+def comparison_operand_type(ctx):
+    """The generated code compares two numbers in the bigger of their two
+    types (gen_binary_op); the result of a comparison is INTEGER.  The
+    folder must coerce the operands to the former, not the latter: coerced
+    to the result type, 1.2 < 1.4 becomes 1 < 1."""
+    repo = ctx.repo
+    from .. import pat
+    rule = 'C02.comparison-folded-in-operand-type'
+    ctx.rule(rule, 'in BinaryOp._eval_numeric the type the evaluated '
+             'operands are coerced to is not unconditionally self.type '
+             '(INTEGER for a comparison): it is re-bound under a test of '
+             'op.is_comparison, as gen_binary_op picks the common operand '
+             'type for cmp')
+    f = repo.func('qbee.expr', 'BinaryOp._eval_numeric')
+    ty = repo.func('qbee.expr', 'BinaryOp.type')
+    cmp_is_int = pat.has('if self.op.is_comparison:\n    return Type.INTEGER',
+                         ty.node)
+    sites = []
+    for c in ast.walk(f.node):
+        if isinstance(c, ast.Call) and isinstance(c.func, ast.Attribute) \
+                and c.func.attr == 'coerce' and c.args and any(
+                    isinstance(e, ast.Call) and isinstance(
+                        e.func, ast.Attribute) and e.func.attr == 'eval'
+                    for e in ast.walk(c.args[0])):
+            sites.append(c)
+    if not sites:
+        ctx.observe('BinaryOp._eval_numeric no longer coerces evaluated '
+                    'operands: comparison operand type not decided here')
+        return
+    for c in sites:
+        recv = c.func.value
+        construct = f'{f.file}:BinaryOp._eval_numeric:coerce(' \
+                    f'{unparse(c.args[0])[:24]})'
+        rebound = False
+        if isinstance(recv, ast.Name):
+            for i in ast.walk(f.node):
+                if isinstance(i, ast.If) and \
+                        'is_comparison' in unparse(i.test) and any(
+                            isinstance(a, ast.Assign) and any(
+                                isinstance(t, ast.Name) and t.id == recv.id
+                                for t in a.targets)
+                            for b in i.body for a in ast.walk(b)):
+                    rebound = True
+        elif isinstance(recv, ast.IfExp) and \
+                'is_comparison' in unparse(recv.test):
+            rebound = True
+        plain = unparse(recv) == 'self.type' or (
+            isinstance(recv, ast.Name) and not rebound)
+        ctx.instance(rule, construct, sample={
+            'coerced_to': unparse(recv), 'rebound_for_comparisons': rebound,
+            'comparison_result_is_INTEGER': cmp_is_int})
+        if cmp_is_int and plain:
+            ctx.finding(rule, construct,
+                        f'operands are coerced to `{unparse(recv)}`, the '
+                        f'result type, which is INTEGER for a comparison: '
+                        f'a constant comparison of non-integral numbers is '
+                        f'folded on rounded operands (1.2 < 1.4 -> 0 at -O1, '
+                        f'-1 at -O0)', f.file, c.lineno)
+
+
 def run(ctx):
     ctx.clauses = [
         'folder == machine operator by operator (BinaryOp._eval_numeric, '
@@ -803,6 +863,7 @@ def run(ctx):
     range_tables(ctx)
     level_independence(ctx)
     rounding_agreement(ctx)
+    comparison_operand_type(ctx)
     peephole_guards(ctx)
     dead_code_premises(ctx)
     fold_returns(ctx)
